@@ -172,3 +172,17 @@ func WAddr(site uint32, p unsafe.Pointer) {
 // Rec is deferred around record construction so that evaluating an address
 // (nil pointer, index out of range) can never change the program's behaviour.
 func Rec() { _ = recover() }
+
+// WSpare records the write that append(s, ...) performs when s has spare
+// capacity: the slot just past len(s) of the shared backing array.
+func WSpare[S ~[]E, E any](site uint32, s S) {
+	if cap(s) > len(s) {
+		p := &s[: len(s)+1 : len(s)+1][len(s)]
+		if leak {
+			sink = unsafe.Pointer(p)
+		}
+		if accActive && unsafe.Sizeof(*p) != 0 {
+			access(site, uintptr(unsafe.Pointer(p)), true, false)
+		}
+	}
+}
